@@ -206,7 +206,7 @@ def build_props(pid, thorough=False, log=None):
     bad_ax = [a for a in axioms if a not in STD_AXIOMS_OK and not a.startswith(('Uint63.', 'PrimFloat.', 'FloatAxioms.', 'PrimInt63.', 'Sint63.'))]
     res['unexpected_axioms'] = bad_ax
     if thorough and ok:
-        chk = 'flock /tmp/pv_coqchk.lock timeout %d coqchk -silent -o -R %%s PV PV.Props.%%s' %% int(os.environ.get('VERIF_COQCHK_TIMEOUT', '900')) %% (COQ, pid)
+        chk = 'flock /tmp/pv_coqchk.lock timeout %d coqchk -silent -o -R %s PV PV.Props.%s' % (int(os.environ.get('VERIF_COQCHK_TIMEOUT', '900')), COQ, pid)
         p2 = subprocess.run(chk, shell=True, stdout=subprocess.PIPE, stderr=subprocess.STDOUT, text=True)
         res['coqchk_rc'] = p2.returncode
         res['coqchk_tail'] = p2.stdout[-3000:]
